@@ -122,7 +122,8 @@ def rule_thread(repo: Repo, rid: str, fname: str, step_fn: str, init_fn: Optiona
         for ct in ctor:
             a, b, c3 = _initial_state_ok(repo, f, ct, p, "problem")
             if a and b and c3 and init_paths and all(pth[0] == "fresh:State" or any(s_.endswith(":State") for s_ in pth) for pth in init_paths) and \
-                    any(ct is x for x in _state_ctors_reaching(p, st)):
+                    (any(ct is x for x in _state_ctors_reaching(p, st)) or set(init_paths) <= set(p.trace(ct))):
+                # (the constructed state may travel to the loop through records / tuples: then its provenance is what identifies it)
                 init_ok = True
                 detail = {"predicates": a, "fluents": b, "is_init": c3}
         if not init_ok and any(pth[0].startswith(("ext:", "unknown:")) or any(s.startswith("arg") and not s.endswith(":" + step_fn) for s in pth) for pth in init_paths) \
